@@ -1017,6 +1017,13 @@ contract(F, 'Table.sort', tier='A', props=['C06', 'C07'],
         "        all(result._sample_metadata[k] == self._sample_metadata[self._sample_index[%s[k]]] for k in range(len(%s))))" % (_ORD, _ORD),
         "implies(axis == 'observation' and not isnone(result._observation_metadata), not isnone(self._observation_metadata) and "
         "        all(result._observation_metadata[k] == self._observation_metadata[self._obs_index[%s[k]]] for k in range(len(%s))))" % (_ORD, _ORD),
+        # metadata is dropped only when no entry (of the ids asked for) holds anything
+        "implies(axis == 'sample' and isnone(result._sample_metadata) and not isnone(self._sample_metadata), "
+        "        all(entry_empty(self._sample_metadata[self._sample_index[%s[k]]]) for k in range(len(%s))))" % (_ORD, _ORD),
+        "implies(axis == 'observation' and isnone(result._observation_metadata) and not isnone(self._observation_metadata), "
+        "        all(entry_empty(self._observation_metadata[self._obs_index[%s[k]]]) for k in range(len(%s))))" % (_ORD, _ORD),
+        "implies(axis == 'sample' and isnone(result._observation_metadata) and not isnone(self._observation_metadata), all_empty(self._observation_metadata))",
+        "implies(axis == 'observation' and isnone(result._sample_metadata) and not isnone(self._sample_metadata), all_empty(self._sample_metadata))",
     ],
     raises={'UnknownAxisError': ["not (%s)" % AX], 'UnknownIDError': [AX], '*': []},
     modifies=[])
